@@ -1268,7 +1268,11 @@ def _sf_exists(self, n, st):
 def _sf_implies(self, n, st):
     a = self.truth(self.ev_pure(n.args[0], st))
     s2 = st.copy().assume(a)
-    b = self.truth(self.ev_pure(n.args[1], s2))
+    from .ev_expr import NoOutcome
+    try:
+        b = self.truth(self.ev_pure(n.args[1], s2))
+    except NoOutcome:
+        return [(st, Val(BOOL, z3.BoolVal(True)))]     # the antecedent contradicts the context: vacuously true
     return [(st, Val(BOOL, z3.Implies(a, b)))]
 
 
@@ -1278,7 +1282,9 @@ def _sf_old(self, n, st):
         raise Unsupported("old() outside a postcondition")
     pre = old.t.copy()
     # names in old(...) are evaluated in the pre-state's heap, with the clause's own locals
-    pre.env = {**pre.env, **st.env}
+    pre.env = {**pre.env, **{k: v for k, v in st.env.items() if k not in self.ghost_defaults}}
+    for g in self.ghost_defaults:
+        pre.env.pop(g, None)          # old(ghost) reads the ghost state of the pre-state
     pre.ghost["__module__"] = st.ghost.get("__module__")
     v = self.ev_pure(n.args[0], pre)
     return [(st, v)]
